@@ -158,6 +158,8 @@ func (s *MultipartReply) UnmarshalBinary(data []byte) error {
 			repl = NewTableStats()
 		case MultipartType_Queue:
 			repl = new(QueueStats)
+		case MultipartType_PortDesc:
+			repl = NewPhyPort()
 		// FIXME: Support all types
 		case MultipartType_Experimenter:
 			break
